@@ -134,6 +134,18 @@ def gate (arms : List GateArm) : RTy → STy → Bool
             || (arm.pairs = [(0, 1), (1, 0)] && gate arms r1 b && gate arms r2 a))
     | _, _ => false
 
+/-- `check_args`: the slice pattern demands the Rust function type's number of parameters, then
+    position `i` of the signature is checked against the `i`-th Rust parameter type -/
+def gateArgs (arms : List GateArm) : List RTy → List STy → Bool
+  | [], [] => true
+  | r :: rs, t :: ts => gate arms r t && gateArgs arms rs ts
+  | _, _ => false
+
+/-- `get_function::<fn(A…) -> R>` on a function of signature `(ts) -> tret`: the parameters, then
+    the return type; only then is the function pointer handed out -/
+def gateSig (arms : List GateArm) (rs : List RTy) (rret : RTy) (ts : List STy) (tret : STy) : Bool :=
+  gateArgsPositionwise && gateArgs arms rs ts && gateReturnChecked && gate arms rret tret
+
 /-! ## How each side reads a value -/
 
 /-- the structure a side attributes to the bytes of a value: per enum its variant table -/
